@@ -4,7 +4,7 @@ import DC.Prelude.Hex
 # `unicode/utf8`: `DecodeRune` and `FullRune` (as used by `bufio.Reader.ReadRune`)
 
 Mirror of `$GOROOT/src/unicode/utf8/utf8.go` (go1.25): the `first` table, `acceptRanges`, `DecodeRune`
-(utf8.go:155) and `FullRune` (utf8.go:105). Runes are `Nat`s. Core-only, executable.
+(utf8.go:157) and `FullRune` (utf8.go:110). Runes are `Nat`s. Core-only, executable.
 
 This file is private to the `bufio` component (`DC.Model.Bufio`); the lexer component has its own
 `DC/Prelude/Utf8.lean` with the same Go semantics — the two can be merged (prove `Utf8B.decodeRune = Utf8.decodeRune`
@@ -33,7 +33,7 @@ def first (b : UInt8) : Nat :=
   else if n = 0xF4 then 0x44     -- s7
   else 0xF1                      -- xx
 
-/-- `acceptRanges[i].lo` (utf8.go:99) -/
+/-- `acceptRanges[i].lo` (utf8.go:100) -/
 def acceptLo (i : Nat) : Nat :=
   if i = 1 then 0xA0 else if i = 3 then 0x90 else if i ≤ 4 then 0x80 else 0
 
@@ -52,7 +52,7 @@ def rune3 (p0 b1 b2 : UInt8) : Nat := (p0.toNat % 16) * 4096 + (b1.toNat % 64) *
 def rune4 (p0 b1 b2 b3 : UInt8) : Nat :=
   (p0.toNat % 8) * 262144 + (b1.toNat % 64) * 4096 + (b2.toNat % 64) * 64 + b3.toNat % 64
 
-/-- `utf8.DecodeRune` (utf8.go:155). Returns `(rune, size)`; `(RuneError, 0)` for the empty slice,
+/-- `utf8.DecodeRune` (utf8.go:157). Returns `(rune, size)`; `(RuneError, 0)` for the empty slice,
 `(RuneError, 1)` for an invalid or incomplete encoding. -/
 def decodeRune (p : Bytes) : Nat × Nat :=
   match p with
@@ -79,7 +79,7 @@ def decodeRune (p : Bytes) : Nat × Nat :=
                   if notCont b3 then (runeError, 1)
                   else (rune4 p0 b1 b2 b3, 4)
 
-/-- `utf8.FullRune` (utf8.go:105). -/
+/-- `utf8.FullRune` (utf8.go:110). -/
 def fullRune (p : Bytes) : Bool :=
   match p with
   | [] => false
